@@ -1,6 +1,6 @@
 // Package c10: bootstrap supports (FBP, TBE) against their definitions.
 //
-// Every case runs the REAL support.FBP and support.TBE (one thread) on a
+// Every case runs the REAL support.FBP and support.TBE (1, 2, 4 or 16 threads) on a
 // reference tree and a collection of bootstrap trees, through the library or
 // through `gotree compute support fbp|tbe`, and emits the α dumps before and
 // after.  A second run on a permuted collection of re-rooted / rotated copies
@@ -12,6 +12,7 @@ import (
 	"fmt"
 	"io"
 	"math"
+	"math/big"
 	"os"
 	"os/exec"
 	"strings"
@@ -217,10 +218,23 @@ func stripSupports(n *core.N) {
 // ---------------------------------------------------------------------------
 // generators
 
+// smallFirst: the first cases of a run are small, so that the first violations reported
+// (bin/check keeps the first five) are already near-minimal.
+var smallFirst = false
+
 func refTree(c *core.Ctx) *core.N {
 	g := c.G
 	o := core.DefaultOpts()
 	o.MinTips, o.MaxTips = 4, c.Scale(11, 16)
+	if smallFirst {
+		o.MaxTips = 6
+	} else if !c.Quick() && g.Chance(0.03) {
+		o.MaxTips = 40
+	}
+	if g.Chance(0.1) {
+		// look-alike and awkward tip names (library mode keeps them as they are)
+		o.FunnyNames = funnyOK
+	}
 	o.InnerNames = 0
 	o.Lengths = 1
 	o.Supports = 2
@@ -234,6 +248,10 @@ func refTree(c *core.Ctx) *core.N {
 		o.Rooted = 0
 	default:
 		o.Rooted = 2
+	}
+	if g.Chance(0.25) {
+		// internal node names (blanked by both functions) instead of some supports
+		o.InnerNames = 0.4
 	}
 	t, _ := g.Tree(o)
 	if g.Chance(0.2) {
@@ -280,7 +298,9 @@ func relabel(g *core.G, t *core.N) {
 func bootTree(c *core.Ctx, ref *core.N) *core.N {
 	g := c.G
 	b := ref.Clone()
-	stripSupports(b)
+	if g.Chance(0.7) {
+		stripSupports(b) // otherwise the bootstrap tree carries supports and internal names of its own
+	}
 	switch r := g.Intn(10); {
 	case r == 0: // identical topology
 	case r == 1: // unrelated: same shape, taxa shuffled, then scrambled
@@ -418,14 +438,14 @@ func finish(out string, t *tree.Tree) result {
 	return result{out: "ok", after: d}
 }
 
-func inprocFBP(ref *core.N, boots []*core.N) result {
+func inprocFBP(ref *core.N, boots []*core.N, threads int) result {
 	t := build(ref)
 	ch := channel(boots)
-	out, _ := guarded(func() error { return support.FBP(t, ch, 1, nil) })
+	out, _ := guarded(func() error { return support.FBP(t, ch, threads, nil) })
 	return finish(out, t)
 }
 
-func inprocTBE(ref *core.N, boots []*core.N) result {
+func inprocTBE(ref *core.N, boots []*core.N, threads int) result {
 	t := build(ref)
 	ch := channel(boots)
 	out, _ := guarded(func() error {
@@ -433,7 +453,7 @@ func inprocTBE(ref *core.N, boots []*core.N) result {
 		if err := t.ReinitIndexes(); err != nil {
 			return err
 		}
-		_, err := support.TBE(t, ch, 1, false, false, false, 0.3, nil, nil)
+		_, err := support.TBE(t, ch, threads, false, false, false, 0.3, nil, nil)
 		return err
 	})
 	return finish(out, t)
@@ -504,11 +524,15 @@ func stopChild() {
 	}
 }
 
-func callChild(kind string, ref *core.N, boots []*core.N) result {
+func callChild(kind string, threads int, ref *core.N, boots []*core.N) result {
+	return callChildArg(kind, fmt.Sprint(threads), ref, boots)
+}
+
+func callChildArg(kind string, arg string, ref *core.N, boots []*core.N) result {
 	if child == nil {
 		child = startChild()
 	}
-	req := kind + "\t" + ref.Dump() + "\t" + core.Dumps(boots) + "\n"
+	req := fmt.Sprintf("%s\t%s\t%s\t%s\n", kind, arg, ref.Dump(), core.Dumps(boots))
 	if _, err := io.WriteString(child.in, req); err != nil {
 		stopChild()
 		return result{out: "panic:child-died"}
@@ -546,38 +570,52 @@ func childLoop() {
 			return
 		}
 		f := strings.Split(strings.TrimRight(l, "\n"), "\t")
-		if len(f) < 3 {
+		if len(f) < 4 {
 			return
 		}
-		ref, err := core.ParseDump(f[1])
+		threads := 1
+		fmt.Sscanf(f[1], "%d", &threads)
+		ref, err := core.ParseDump(f[2])
 		if err != nil {
 			return
 		}
-		boots := parseDumps(f[2])
+		boots := parseDumps(f[3])
 		var r result
-		if f[0] == "FBP" {
-			r = inprocFBP(ref, boots)
-		} else {
-			r = inprocTBE(ref, boots)
+		switch f[0] {
+		case "FBP":
+			r = inprocFBP(ref, boots, threads)
+		case "LOG":
+			a := strings.SplitN(f[1], "@", 2)
+			cutoff, _ := core.ParseRat(a[0])
+			th := 1
+			if len(a) > 1 {
+				fmt.Sscanf(a[1], "%d", &th)
+			}
+			r = inprocLog(ref, boots, cutoff, th)
+		default:
+			r = inprocTBE(ref, boots, threads)
 		}
 		w.WriteString(r.out + "\t" + r.after + "\n")
 		w.Flush()
 	}
 }
 
-func libFBP(ref *core.N, boots []*core.N) result {
+func libFBPn(ref *core.N, boots []*core.N, threads int) result {
 	if !useChild {
-		return inprocFBP(ref, boots)
+		return inprocFBP(ref, boots, threads)
 	}
-	return callChild("FBP", ref, boots)
+	return callChild("FBP", threads, ref, boots)
 }
 
-func libTBE(ref *core.N, boots []*core.N) result {
+func libTBEn(ref *core.N, boots []*core.N, threads int) result {
 	if !useChild {
-		return inprocTBE(ref, boots)
+		return inprocTBE(ref, boots, threads)
 	}
-	return callChild("TBE", ref, boots)
+	return callChild("TBE", threads, ref, boots)
 }
+
+func libFBP(ref *core.N, boots []*core.N) result { return libFBPn(ref, boots, 1) }
+func libTBE(ref *core.N, boots []*core.N) result { return libTBEn(ref, boots, 1) }
 
 func parseNewick(s string) (*core.N, error) {
 	t, err := newick.NewParser(strings.NewReader(s)).Parse()
@@ -591,8 +629,19 @@ func parseNewick(s string) (*core.N, error) {
 	return a, nil
 }
 
-func cliRun(c *core.Ctx, which, refFile, bootFile string) result {
-	r := c.RunCLI("", 20*time.Second, "compute", "support", which, "-i", refFile, "-b", bootFile, "-t", "1")
+func cliRun(c *core.Ctx, which, refFile, bootFile string, threads int) result {
+	args := []string{"compute", "support", which, "-i", refFile, "-b", bootFile, "-t", fmt.Sprint(threads)}
+	outFile := ""
+	if c.G.Chance(0.4) {
+		// result and log to files instead of stdout / stderr (cmd/computesupport.go)
+		outFile = c.TmpFile("")
+		args = append(args, "-o", outFile, "-l", c.TmpFile(""))
+	}
+	r := c.RunCLI("", 20*time.Second, args...)
+	if outFile != "" && r.Exit == 0 && !r.Timeout {
+		b, _ := os.ReadFile(outFile)
+		r.Stdout = string(b)
+	}
 	if r.Timeout {
 		timeouts++
 		return result{out: "timeout"}
@@ -611,11 +660,34 @@ func cliRun(c *core.Ctx, which, refFile, bootFile string) result {
 	if err != nil {
 		return result{out: "clifail:" + core.Escape(err.Error())}
 	}
-	return result{out: "ok", after: a.Dump()}
+	d := a.Dump()
+	if strings.Contains(d, "nan") || strings.Contains(d, "inf") {
+		// a support that is not a number (written as NaN / +Inf / -Inf)
+		for _, tok := range strings.Fields(d) {
+			if strings.HasPrefix(tok, "e") && (strings.Contains(tok, "nan") || strings.Contains(tok, "inf")) {
+				return result{out: "nan"}
+			}
+		}
+	}
+	return result{out: "ok", after: d}
 }
 
 // doSup runs both functions on one input and emits the C10.sup line.
 func doSup(c *core.Ctx, mode string, ref *core.N, boots []*core.N) (result, result) {
+	return doSupN(c, mode, 1, ref, boots)
+}
+
+// emitSup writes the case line: C10.sup for one thread (the format of the corpus), C10.supt otherwise.
+func emitSup(c *core.Ctx, mode string, threads int, ref string, boots string, f, t result) {
+	if threads == 1 {
+		c.Emit("C10.sup", mode, ref, boots, f.out, f.after, t.out, t.after)
+	} else {
+		c.Emit("C10.supt", mode, fmt.Sprint(threads), ref, boots, f.out, f.after, t.out, t.after)
+	}
+}
+
+// doSupN runs both functions with the given number of threads.
+func doSupN(c *core.Ctx, mode string, threads int, ref *core.N, boots []*core.N) (result, result) {
 	if mode == "cli" {
 		refTxt := build(ref).Newick() + "\n"
 		var sb strings.Builder
@@ -645,17 +717,188 @@ func doSup(c *core.Ctx, mode string, ref *core.N, boots []*core.N) (result, resu
 		if c.G.Chance(0.3) {
 			fcmd, tcmd = "classical", "booster"
 		}
-		f := cliRun(c, fcmd, rf, bf)
-		t := cliRun(c, tcmd, rf, bf)
-		c.Emit("C10.sup", mode, pref.Dump(), core.Dumps(pboots), f.out, f.after, t.out, t.after)
+		f := cliRun(c, fcmd, rf, bf, threads)
+		t := cliRun(c, tcmd, rf, bf, threads)
+		emitSup(c, mode, threads, pref.Dump(), core.Dumps(pboots), f, t)
 		return f, t
 	}
-	f := libFBP(ref, boots)
-	t := libTBE(ref, boots)
-	c.Emit("C10.sup", mode, ref.Dump(), core.Dumps(boots), f.out, f.after, t.out, t.after)
+	f := libFBPn(ref, boots, threads)
+	t := libTBEn(ref, boots, threads)
+	emitSup(c, mode, threads, ref.Dump(), core.Dumps(boots), f, t)
 	return f, t
 }
 
+
+// probeSup runs both functions without emitting anything (library mode only; "err","err" otherwise).
+func probeSup(c *core.Ctx, mode string, threads int, ref *core.N, boots []*core.N) (string, string) {
+	if mode != "lib" {
+		return "probe", "probe"
+	}
+	return libFBPn(ref, boots, threads).out, libTBEn(ref, boots, threads).out
+}
+
+
+// inprocLog runs TBE with --moved-taxa, --per-branches and --out-raw (one thread) and returns what
+// it wrote besides the supports: "raw\ttaxa\tbranches" (see doLog).
+func inprocLog(ref *core.N, boots []*core.N, cutoff float64, threads int) result {
+	t := build(ref)
+	ch := channel(boots)
+	logf, err := os.CreateTemp("", "c10log")
+	if err != nil {
+		panic(err)
+	}
+	defer os.Remove(logf.Name())
+	var raw *tree.Tree
+	out, _ := guarded(func() error {
+		if err := t.ReinitIndexes(); err != nil {
+			return err
+		}
+		var err error
+		raw, err = support.TBE(t, ch, threads, true, true, true, cutoff, logf, nil)
+		return err
+	})
+	logf.Close()
+	if out != "ok" {
+		return result{out: out}
+	}
+	data, _ := os.ReadFile(logf.Name())
+	return parseLogOutputs(raw, string(data))
+}
+
+// parseLogOutputs reads the raw tree and the log file of TBE.
+func parseLogOutputs(raw *tree.Tree, data string) result {
+	var rawItems, taxa, branches []string
+	bad := false
+	for _, e := range raw.Edges() {
+		nm := e.Right().Name()
+		if !e.Right().Tip() && strings.Count(nm, "|") == 2 {
+			f := strings.Split(nm, "|")
+			v, ok := new(big.Rat).SetString(f[1])
+			if !ok {
+				bad = true
+				continue
+			}
+			rawItems = append(rawItems, f[0]+":"+v.RatString()+":"+f[2])
+		}
+	}
+	section := ""
+	for _, l := range strings.Split(data, "\n") {
+		switch {
+		case strings.HasPrefix(l, "Taxon\ttIndex"):
+			section = "taxa"
+		case strings.HasPrefix(l, "Edge\tLength"):
+			section = "branches"
+		case strings.HasPrefix(l, "End "):
+			section = "" // the closing line cmd/booster.go writes to the same log
+		case l == "":
+		case section == "taxa":
+			f := strings.Split(l, "\t")
+			v, ok := new(big.Rat).SetString(f[len(f)-1])
+			if len(f) != 2 || !ok {
+				bad = true
+				continue
+			}
+			taxa = append(taxa, core.Escape(f[0])+":"+v.RatString())
+		case section == "branches":
+			f := strings.Split(l, "\t")
+			if len(f) < 5 {
+				bad = true
+				continue
+			}
+			var vals []string
+			for _, x := range f[4:] {
+				v, ok := new(big.Rat).SetString(x)
+				if !ok {
+					bad = true
+					continue
+				}
+				vals = append(vals, v.RatString())
+			}
+			branches = append(branches, f[0]+":"+f[2]+":"+vals[0]+":"+strings.Join(vals[1:], ";"))
+		}
+	}
+	if bad {
+		return result{out: "clifail:unreadable-log"}
+	}
+	join := func(l []string) string {
+		if len(l) == 0 {
+			return ""
+		}
+		return strings.Join(l, ",") + ","
+	}
+	return result{out: "ok", after: join(rawItems) + "\t" + join(taxa) + "\t" + join(branches)}
+}
+
+
+// cliLog: the same through `gotree compute support tbe --moved-taxa --per-branches -r … -l …`.
+func cliLog(c *core.Ctx, ref *core.N, boots []*core.N, cutoff float64) {
+	refTxt := build(ref).Newick() + "\n"
+	pref, err := parseNewick(refTxt)
+	if err != nil {
+		panic(err)
+	}
+	var sb strings.Builder
+	var pboots []*core.N
+	for _, b := range boots {
+		l := build(b).Newick() + "\n"
+		sb.WriteString(l)
+		pb, err := parseNewick(l)
+		if err != nil {
+			panic(err)
+		}
+		pboots = append(pboots, pb)
+	}
+	rf, bf := c.TmpFile(refTxt), c.TmpFile(sb.String())
+	lf, rawf, of := c.TmpFile(""), c.TmpFile(""), c.TmpFile("")
+	r := c.RunCLI("", 20*time.Second, "compute", "support", "tbe", "-i", rf, "-b", bf, "-t", "1", "--moved-taxa", "--per-branches",
+		"--dist-cutoff", fmt.Sprint(cutoff), "-l", lf, "-r", rawf, "-o", of)
+	res := result{out: "ok"}
+	switch {
+	case r.Timeout:
+		timeouts++
+		res.out = "timeout"
+	case r.Exit == 1:
+		res.out = "err"
+	case r.Exit != 0:
+		res.out = fmt.Sprintf("panic:exit%d", r.Exit)
+	default:
+		rawTxt, _ := os.ReadFile(rawf)
+		data, _ := os.ReadFile(lf)
+		raw, err := newick.NewParser(strings.NewReader(string(rawTxt))).Parse()
+		if err != nil {
+			res.out = "clifail:raw-tree"
+		} else {
+			res = parseLogOutputs(raw, string(data))
+		}
+	}
+	parts := strings.Split(res.after, "\t")
+	for len(parts) < 3 {
+		parts = append(parts, "")
+	}
+	c.Emit("C10.log", pref.Dump(), core.Dumps(pboots), core.Rat(cutoff), res.out, parts[0], parts[1], parts[2])
+}
+
+var logCutoffs = []float64{0.5, 0.25, 0.75, 1.0}
+
+// doLog: the moved-taxa / per-branch / raw-tree outputs of TBE against the model (correspondence).
+func doLog(c *core.Ctx, ref *core.N, boots []*core.N, cutoff float64) {
+	var r result
+	// the accumulators of the log are shared by the workers (one mutex): same tables with any number of threads
+	threads := 1
+	if c.G.Chance(0.3) {
+		threads = threadChoices[c.G.Intn(len(threadChoices))]
+	}
+	if useChild {
+		r = callChildArg("LOG", fmt.Sprintf("%s@%d", core.Rat(cutoff), threads), ref, boots)
+	} else {
+		r = inprocLog(ref, boots, cutoff, threads)
+	}
+	parts := strings.Split(r.after, "\t")
+	for len(parts) < 3 {
+		parts = append(parts, "")
+	}
+	c.Emit("C10.log", ref.Dump(), core.Dumps(boots), core.Rat(cutoff), r.out, parts[0], parts[1], parts[2])
+}
 
 // doMtd calls support.MinTransferDist directly (no goroutine there) on every
 // non-trivial branch of the reference against one bootstrap tree, with and
@@ -721,6 +964,128 @@ func doInv(c *core.Ctx, ref1 *core.N, boots1 []*core.N, ref2 *core.N, boots2 []*
 
 // ---------------------------------------------------------------------------
 
+
+// ---------------------------------------------------------------------------
+// the files as the binary reads them (cmd/root.go readTree / readTrees)
+
+type fileItem struct {
+	kind string  // "T" tree, "B" blank line, "J" unterminated text
+	tree *core.N // for "T": the tree as gotree's parser reads the line
+	text string
+}
+
+func itemsField(items []fileItem) string {
+	var b strings.Builder
+	for _, it := range items {
+		if it.kind == "T" {
+			b.WriteString(it.tree.Dump())
+		} else {
+			b.WriteString(it.kind)
+		}
+		b.WriteByte('|')
+	}
+	return b.String()
+}
+
+func fileText(items []fileItem) string {
+	var b strings.Builder
+	for _, it := range items {
+		b.WriteString(it.text)
+	}
+	return b.String()
+}
+
+func treeItem(n *core.N) fileItem {
+	txt := build(n).Newick() + "\n"
+	p, err := parseNewick(txt)
+	if err != nil {
+		panic(err)
+	}
+	return fileItem{kind: "T", tree: p, text: txt}
+}
+
+func blankItem(g *core.G) fileItem {
+	return fileItem{kind: "B", text: []string{"\n", "  \n", "\t\n"}[g.Intn(3)]}
+}
+
+func doCliFiles(c *core.Ctx, threads int, refItems, bootItems []fileItem) {
+	rf := c.TmpFile(fileText(refItems))
+	bf := c.TmpFile(fileText(bootItems))
+	f := cliRun(c, "fbp", rf, bf, threads)
+	t := cliRun(c, "tbe", rf, bf, threads)
+	c.Emit("C10.cli", fmt.Sprint(threads), itemsField(refItems), itemsField(bootItems), f.out, f.after, t.out, t.after)
+}
+
+func parseItemsField(s string) []fileItem {
+	var out []fileItem
+	for _, x := range strings.Split(s, "|") {
+		switch {
+		case x == "":
+		case x == "B":
+			out = append(out, fileItem{kind: "B", text: "\n"})
+		case x == "J":
+			out = append(out, fileItem{kind: "J", text: "(a,b\n"})
+		default:
+			n, err := core.ParseDump(x)
+			if err != nil {
+				panic(err)
+			}
+			out = append(out, treeItem(n))
+		}
+	}
+	return out
+}
+
+func cliFilesCase(c *core.Ctx) {
+	g := c.G
+	ref := refTree(c)
+	k := 1 + g.Intn(4)
+	var boots []*core.N
+	for i := 0; i < k; i++ {
+		boots = append(boots, bootTree(c, ref))
+	}
+	if g.Chance(0.1) {
+		spoilTaxa(g, boots[g.Intn(k)])
+	}
+	var refItems, bootItems []fileItem
+	for n := g.Intn(3); n > 0; n-- {
+		refItems = append(refItems, blankItem(g))
+	}
+	refItems = append(refItems, treeItem(ref))
+	for n := g.Intn(3); n > 0; n-- {
+		if g.Chance(0.5) {
+			refItems = append(refItems, blankItem(g))
+		} else {
+			// a decoy: only the first tree of the file is the reference
+			refItems = append(refItems, treeItem(boots[g.Intn(k)]))
+		}
+	}
+	switch sp := g.Intn(20); {
+	case sp == 0: // no tree at all
+		for n := g.Intn(3); n > 0; n-- {
+			bootItems = append(bootItems, blankItem(g))
+		}
+	default:
+		for _, b := range boots {
+			for g.Chance(0.4) {
+				bootItems = append(bootItems, blankItem(g))
+			}
+			bootItems = append(bootItems, treeItem(b))
+		}
+		for g.Chance(0.4) {
+			bootItems = append(bootItems, blankItem(g))
+		}
+		if sp == 1 {
+			bootItems = append(bootItems, fileItem{kind: "J", text: "(a,b\n"})
+		}
+	}
+	threads := 1
+	if g.Chance(0.3) {
+		threads = threadChoices[g.Intn(len(threadChoices))]
+	}
+	doCliFiles(c, threads, refItems, bootItems)
+}
+
 func parseDumps(s string) []*core.N {
 	var out []*core.N
 	for _, d := range strings.Split(s, "|") {
@@ -753,7 +1118,48 @@ func Replay(c *core.Ctx, lines []string) {
 			if mode == "cli" && c.Gotree == "" {
 				mode = "lib"
 			}
+			if mode == "lib" && os.Getenv("C10_SHRINK") != "" {
+				c.W.WriteString(shrinkSup(c, supReq{threads: 1, ref: ref, boots: parseDumps(f[3])}))
+				continue
+			}
 			doSup(c, mode, ref, parseDumps(f[3]))
+		case f[0] == "C10.supt" && len(f) >= 5:
+			ref, err := core.ParseDump(f[3])
+			if err != nil {
+				panic(err)
+			}
+			mode := f[1]
+			if mode == "cli" && c.Gotree == "" {
+				mode = "lib"
+			}
+			threads := 1
+			fmt.Sscanf(f[2], "%d", &threads)
+			if mode == "lib" && os.Getenv("C10_SHRINK") != "" {
+				c.W.WriteString(shrinkSup(c, supReq{threads: threads, ref: ref, boots: parseDumps(f[4])}))
+				continue
+			}
+			// a race does not show on every run: repeat until the outcome is not the expected one (at most 20 times)
+			for rep := 0; rep < 20; rep++ {
+				fo, to := probeSup(c, mode, threads, ref, parseDumps(f[4]))
+				if rep == 19 || fo != "err" || to != "err" {
+					doSupN(c, mode, threads, ref, parseDumps(f[4]))
+					break
+				}
+			}
+		case f[0] == "C10.cli" && len(f) >= 4:
+			if c.Gotree == "" {
+				continue
+			}
+			threads := 1
+			fmt.Sscanf(f[1], "%d", &threads)
+			doCliFiles(c, threads, parseItemsField(f[2]), parseItemsField(f[3]))
+		case f[0] == "C10.log" && len(f) >= 4:
+			r1, err := core.ParseDump(f[1])
+			if err != nil {
+				panic(err)
+			}
+			cutoff, _ := core.ParseRat(f[3])
+			doLog(c, r1, parseDumps(f[2]), cutoff)
 		case f[0] == "C10.mtd" && len(f) >= 3:
 			r1, err := core.ParseDump(f[1])
 			if err != nil {
@@ -778,10 +1184,92 @@ func Replay(c *core.Ctx, lines []string) {
 	}
 }
 
+var threadChoices = []int{2, 4, 16}
+
+// funnyOK: tip names with blanks, quotes, slashes … only where no Newick text is in the way
+var funnyOK = false
+
+// rejectionSeries: the rejection clause holds for every collection and every
+// configuration: the tree on other taxa is put at every position of the
+// collection (lengthened with copies of its valid trees) and both functions run
+// with 2, 4 and 16 threads.
+func rejectionSeries(c *core.Ctx, mode string, ref *core.N, boots []*core.N) {
+	g := c.G
+	bad := -1
+	refNames := map[string]bool{}
+	for _, n := range ref.TipNames() {
+		refNames[n] = true
+	}
+	for i, b := range boots {
+		names := b.TipNames()
+		same := len(names) == len(refNames)
+		for _, n := range names {
+			if !refNames[n] {
+				same = false
+			}
+		}
+		if !same {
+			bad = i
+		}
+	}
+	if bad < 0 {
+		return
+	}
+	var valid []*core.N
+	for i, b := range boots {
+		if i != bad {
+			valid = append(valid, b)
+		}
+	}
+	if len(valid) == 0 {
+		v := ref.Clone()
+		stripSupports(v)
+		valid = append(valid, v)
+	}
+	want := 3 + g.Intn(6)
+	for len(valid) < want {
+		valid = append(valid, represent(g, valid[g.Intn(len(valid))], true))
+	}
+	for _, v := range valid {
+		core.NumberEdges(v)
+	}
+	positions := []int{0, len(valid)}
+	if mode == "lib" {
+		if c.Quick() {
+			// first, last and two positions in between
+			positions = append(positions, g.Intn(len(valid)+1), g.Intn(len(valid)+1))
+		} else {
+			positions = positions[:0]
+			for p := 0; p <= len(valid); p++ {
+				positions = append(positions, p)
+			}
+		}
+	}
+	for _, pos := range positions {
+		coll := append(append(append([]*core.N{}, valid[:pos]...), boots[bad]), valid[pos:]...)
+		for _, th := range threadChoices {
+			if timeouts >= maxTimeouts {
+				return
+			}
+			if mode == "cli" && th != threadChoices[g.Intn(len(threadChoices))] {
+				continue
+			}
+			doSupN(c, mode, th, ref, coll)
+		}
+	}
+}
+
 func genCase(c *core.Ctx, mode string) {
 	g := c.G
+	funnyOK = mode == "lib"
 	ref := refTree(c)
+	funnyOK = false
 	k := 1 + g.Intn(c.Scale(5, 8))
+	if smallFirst {
+		k = 1 + g.Intn(2)
+	} else if !c.Quick() && mode == "lib" && g.Chance(0.02) {
+		k = 15 + g.Intn(15)
+	}
 	if mode == "lib" && g.Chance(0.01) {
 		k = 0
 	}
@@ -824,6 +1312,28 @@ func genCase(c *core.Ctx, mode string) {
 			}
 			rec(ref)
 			special = true
+		case sp >= 7 && sp < 9:
+			// a root that is a tip (one neighbour): the reference, or a bootstrap tree
+			t := g.Intn(k + 1)
+			var x *core.N
+			if t == k {
+				x = ref
+			} else {
+				x = boots[t]
+			}
+			if len(x.Kids) >= 3 {
+				for i, kid := range x.Kids {
+					if len(kid.Kids) == 0 {
+						// the tip becomes the root, the old root its only child
+						rest := &core.N{Kids: append(append([]*core.N{}, x.Kids[:i]...), x.Kids[i+1:]...), E: kid.E}
+						nx := &core.N{Name: kid.Name, Kids: []*core.N{rest}}
+						*x = *nx
+						core.NumberEdges(x)
+						special = true
+						break
+					}
+				}
+			}
 		case sp < 7:
 			b := boots[g.Intn(k)]
 			nodes, parents := innerNodes(b)
@@ -838,11 +1348,21 @@ func genCase(c *core.Ctx, mode string) {
 			}
 		}
 	}
-	f, t := doSup(c, mode, ref, boots)
+	threads := 1
+	if !special && k > 0 && g.Chance(0.2) {
+		threads = threadChoices[g.Intn(len(threadChoices))]
+	}
+	f, t := doSupN(c, mode, threads, ref, boots)
+	if mismatch && !special {
+		rejectionSeries(c, mode, ref, boots)
+	}
 	if mode != "lib" || mismatch || special || k == 0 || f.out != "ok" || t.out != "ok" {
 		return
 	}
 	doMtd(c, ref, boots[g.Intn(len(boots))])
+	if threads == 1 && g.Chance(0.5) {
+		doLog(c, ref, boots, logCutoffs[g.Intn(len(logCutoffs))])
+	}
 	// the same input presented otherwise
 	ref2 := represent(g, ref, false)
 	core.NumberEdges(ref2)
@@ -866,14 +1386,27 @@ func Run(c *core.Ctx) {
 		Replay(c, core.ReadRequests(c.Arg))
 		return
 	}
-	n := c.Scale(400, 6000)
+	n := c.Scale(400, 4000)
 	for i := 0; i < n && timeouts < maxTimeouts; i++ {
+		smallFirst = i < n/8
 		genCase(c, "lib")
 	}
+	smallFirst = false
 	if c.Gotree != "" {
-		m := c.Scale(25, 300)
+		m := c.Scale(25, 200)
 		for i := 0; i < m && timeouts < maxTimeouts; i++ {
 			genCase(c, "cli")
+		}
+		for i := 0; i < m && timeouts < maxTimeouts; i++ {
+			cliFilesCase(c)
+		}
+		for i := 0; i < m/2 && timeouts < maxTimeouts; i++ {
+			ref := refTree(c)
+			var boots []*core.N
+			for k := 1 + c.G.Intn(4); k > 0; k-- {
+				boots = append(boots, bootTree(c, ref))
+			}
+			cliLog(c, ref, boots, logCutoffs[c.G.Intn(len(logCutoffs))])
 		}
 	}
 }
